@@ -110,7 +110,24 @@ ROUTES = {
     'Array-copy-data': lambda s, tc, tok: copy.copy(Array('u1', s)).data,
     'Array-trailing': lambda s, tc, tok: Array('u3', s).trailing_bits,
     'Array-from-Array-data': lambda s, tc, tok: Array('u1', Array('u1', s)).data,
+    # two Arrays, one obtained from the other: BOTH data buffers join the population
+    'pair:Array-astype-same-format': lambda s, tc, tok: _array_pair(s, lambda a: a.astype(('u1', 'uint1', 'uint:1', Dtype('uint', 1), a.dtype)[len(s) % 5])),
+    'pair:Array-astype-bool': lambda s, tc, tok: _array_pair(s, lambda a: a.astype('bool')),
+    'pair:Array-copy': lambda s, tc, tok: _array_pair(s, copy.copy),
+    'pair:Array-slice': lambda s, tc, tok: _array_pair(s, lambda a: a[:]),
+    'pair:Array-from-Array': lambda s, tc, tok: _array_pair(s, lambda a: Array('u1', a)),
+    'pair:Array-add-zero': lambda s, tc, tok: _array_pair(s, lambda a: a + 0),
+    'pair:Array-and-one': lambda s, tc, tok: _array_pair(s, lambda a: a & '0b1'),
 }
+
+
+class Pair(tuple):
+    pass
+
+
+def _array_pair(s, derive):
+    a = Array('u1', s)
+    return Pair((a.data, derive(a).data))
 
 def _into(method):
     def f(s, tc, tok):
@@ -409,6 +426,12 @@ def episode(ctx, case, nsteps=0):
                 if kind != 'ok':
                     ctx.mismatch(f'C04|derive|{route}|unexpected-exc:{type(o).__name__}', case, f'{type(s).__name__}->{tcn}: {o!s:.100}')
                     continue
+                if isinstance(o, Pair):
+                    if o[0] is o[1]:
+                        ctx.mismatch(f'C04|isolation|edge={route}|two-arrays-one-data-object', case, f'{route}: both Arrays hold the same data object')
+                        continue
+                    reg(o[0], 'bits', route + '/source')
+                    o = o[1]
                 if o is s:
                     if type(s).__name__ in util.MUTABLE:
                         # a derivation from a mutable object handed the object itself back: whatever was built around it shares its bits
